@@ -459,6 +459,87 @@ def evaluate(cases, impl, model, v, compare_model=True):
             v.count("%s=%s" % (k, val))
         for r in results:
             v.count("res:" + r[0])
+        for o in c.ops:
+            v.count("op:" + o.split(" ", 1)[0])
+
+
+SHRINK_BINS = {}      # set by ./check once the harness is built: family binary paths
+
+
+def _first_diff(case, ops, workdir):
+    """Run ops as one case through implementation and model; index of the first compared op whose results
+    differ (None if they agree everywhere)."""
+    c = Case("shrink", case.family, case.bs, case.w, case.dm)
+    c.ops = ops
+    os.makedirs(workdir, exist_ok=True)
+    path = os.path.join(workdir, "shrink.cases")
+    open(path, "w").write(c.text())
+    try:
+        ri = subprocess.run([SHRINK_BINS[FAMILY_BIN[case.family]], path], stdout=subprocess.PIPE, stderr=subprocess.PIPE, text=True, timeout=60)
+        rm = subprocess.run([MODEL_BIN, path], stdout=subprocess.PIPE, stderr=subprocess.PIPE, text=True, timeout=60)
+    except Exception:
+        return None, None, None
+    if ri.returncode != 0 or rm.returncode != 0:
+        return None, None, None
+    a, b = parse_results(ri.stdout).get("shrink", {}), parse_results(rm.stdout).get("shrink", {})
+    for i in range(len(ops)):
+        if ops[i].startswith("getstate"):
+            continue
+        x, y = a.get(i), b.get(i)
+        if x is None or y is None or y[0] == "unsupported":
+            continue
+        if x != y:
+            return i, x, y
+    return None, None, None
+
+
+def _drop_op(ops, j):
+    """ops without op j, references @k renumbered; None if a later op refers to @j"""
+    out = []
+    for i, o in enumerate(ops):
+        if i == j:
+            continue
+        toks = []
+        for t in o.split(" "):
+            m = re.fullmatch(r"@(\d+)", t)
+            if m:
+                k = int(m.group(1))
+                if k == j:
+                    return None
+                if k > j:
+                    t = "@%d" % (k - 1)
+            toks.append(t)
+        out.append(" ".join(toks))
+    return out
+
+
+def shrink(case):
+    """Greedy minimisation of a case on which implementation and model disagree: cut everything after the
+    first differing op, then drop earlier ops one at a time while a difference remains."""
+    if not SHRINK_BINS or case is None or FAMILY_BIN.get(case.family) not in SHRINK_BINS:
+        return None
+    wd = os.path.join(WORK, "shrink")
+    ops = list(case.ops)
+    i, x, y = _first_diff(case, ops, wd)
+    if i is None:
+        return None
+    ops = ops[:i + 1]
+    budget = 150
+    j = len(ops) - 2
+    while j >= 0 and budget > 0:
+        cand = _drop_op(ops, j)
+        if cand is not None:
+            budget -= 1
+            k, _, _ = _first_diff(case, cand, wd)
+            if k is not None:
+                ops = cand[:k + 1]
+                j = min(j, len(ops) - 1)
+        j -= 1
+    i, x, y = _first_diff(case, ops, wd)
+    c = Case(case.name + "_min", case.family, case.bs, case.w, case.dm)
+    c.ops = ops
+    return dict(ops=ops, case_text=c.text(), first_differing_op=i, implementation=list(x or []), model=list(y or []),
+                original_ops=len(case.ops))
 
 
 def write_replay(pid, n, kind, case, detail, impl, model):
@@ -468,6 +549,11 @@ def write_replay(pid, n, kind, case, detail, impl, model):
                case_text=case.text() if case else None,
                impl={str(k): v for k, v in (impl or {}).items()}, model={str(k): v for k, v in (model or {}).items()},
                replay_cmd="./check %s --replay %s" % (pid, path))
+    if n == 0 and case is not None:
+        try:
+            doc["shrunk"] = shrink(case)
+        except Exception as e:       # shrinking is a convenience; never let it mask the verdict
+            doc["shrunk"] = dict(error=repr(e))
     json.dump(doc, open(path, "w"), indent=1)
     return path
 
